@@ -5,6 +5,7 @@
    tied to the code by the correspondence harness cmd/c09 (+ harness/stack); the property is
    the pair of trace monitors Spec/C09Spec.v / Spec/BindSchedSpec.v, which also judge the
    implementation's traces. *)
+From Verif Require Model.StackX Spec.StackXSpec.
 From Verif Require Import Base.Prelude.
 From Verif Require Import Model.Stack Spec.StackObs Spec.BindReg Spec.C09Spec Proofs.BindRegProofs Proofs.C09Proofs.
 From Verif Require Model.BindSched Spec.BindSchedSpec Proofs.BindSchedProofs.
@@ -26,6 +27,14 @@ Proof. exact run_accepted. Qed.
 Print Assumptions C09_trace_accepted.
 
 (* at no time does a local server feature have more than one binding (sequential histories) *)
+(* The same for histories in which a teardown of peer p is overlapped by a bind / unbind /
+   subscribe / unsubscribe call of another peer q (Model/StackX.v [During]); the product machine
+   the driver runs (C09_machine_accepted) contains these operations as well. *)
+Theorem C09_overlap_trace_accepted : forall xops,
+  StackXSpec.xaccepted (StackXSpec.xjudge mon minit (snd (StackX.xrun init xops))) = true.
+Proof. exact xrun_accepted. Qed.
+Print Assumptions C09_overlap_trace_accepted.
+
 Theorem C09_at_most_one : forall ops sf, (length (bindings_on (fst (run init ops)) sf) <= 1)%nat.
 Proof. exact at_most_one. Qed.
 Print Assumptions C09_at_most_one.
